@@ -22,6 +22,21 @@ CHECKS.update({
  "C20": ("E-enum", "exploration", "runtime oracle: parse the produced diff, apply it, compare; independent backtracking matcher for DiffMatch; exhaustive small domain + PRNG",
          "All 132 496 pairs of line sequences of length <=5 over three letters plus PRNG long pairs through the real ztest.Diff with a patch-applying oracle; generated placeholder templates through the real DiffMatch against an independent matcher.", "The oracle's parser of the diff format and the reference matcher are trusted; DiffMatch cases straddling a UTC date change are discarded.", "§4 C20"),
 })
+CHECKS.update({
+ "C04": ("E-model", "exploration", "runtime reference-model monitor on the public API (sequential inode-identity model), exhaustive over all short operation sequences + PRNG/template sequences; fdinfo mark count",
+         "All sequences of length <=3 over a 24-letter alphabet of Add/Remove spellings, failing Adds and filesystem steps (thorough: <=4 over 14 letters, <=3 over 45) are executed against the real Watcher next to a sequential model; WatchList and result classes compared after every step, live-watch probes, zero kernel marks at the end.",
+         "The model (harness/checks/c04.go) is my reading of the statement; stat(2) identifies files; strict schedule (barrier after each filesystem step). Exhaustive only up to the stated length.", "§4 C04"),
+ "C08": ("E-twin", "exploration", "runtime monitor: driver-known entry names and Add spellings vs received Event.Name, names decoded at offsets across the 64 KiB read buffer; checkptr/race build",
+         "14 spellings of the Add argument x entry names of every padding-relevant byte length and 8 shapes, with consumer pauses; every received name must be byte-for-byte Clean(arg)[/entry]; aliases must keep the first spelling.", TWIN_NOTE, "§4 C08"),
+ "C09": ("E-twin+API", "exploration", "runtime monitor: directed end-of-watch histories with API probes (WatchList, Remove result, re-Add) and the kernel shadow with the semantic parent rule",
+         "A parameter grid of directed histories (ending x parent mode x symlink x held descriptors) followed by further operations and a re-Add; three recorded findings (D5a/b/c) are reported as KNOWN-FINDING by witness-specific signatures.", TWIN_NOTE, "§4 C09, §5 D5"),
+ "C11": ("E-twin", "exploration", "runtime monitor: kernel cookie pairing (unbounded map) vs the old name carried by received Creates; sequential and concurrent movers; race build",
+         "Sequential move histories with up to 200 unmatched cookies in a row and chains of up to 500 moves, plus 2-8 concurrent movers compared per directory; the kernel's cookie defines 'the same move'.", TWIN_NOTE + " Concurrent histories with >=10 IN_MOVED_FROM between the halves of one move are not judged (ring size is documented).", "§4 C11"),
+ "C12": ("E-proc", "exploration", "runtime invariant monitor at quiescent points: /proc/self/fdinfo kernel marks == wd table == path table == WatchList, and conservation over add/remove/delete/recreate/re-add cycles",
+         "PRNG cycle programs (strict and lagging) with the three-way invariant checked every k steps and a return-to-start check after removing everything listed.", "fdinfo lists all marks; tables read through the verif hook under the library's lock at barriers only.", "§4 C12"),
+ "C14": ("E-twin", "exploration", "runtime monitor: k Watchers with different buffer sizes + interfering Watchers fed by one driver, each compared with the kernel log; capacity and absorb probes",
+         "cap(Events) for 20 sizes; 2-4 measured Watchers and 1-4 interfering ones (Add/Remove/Close/re-create) on the same directories; buffered Watchers without consumer must hold exactly n<=cap events and deliver them intact.", TWIN_NOTE, "§4 C14"),
+})
 PENDING = {}
 ids = [json.loads(l)["id"] for l in open(f"{V}/properties.jsonl")]
 hooks = subprocess.run(["git", "-C", "/repo", "log", "--format=%H %s"], capture_output=True, text=True).stdout.splitlines()
